@@ -96,8 +96,11 @@ def tokenize_spans(text: str, reading: str = "W"):
             out.append(("STR", text[i + 1 : j], i, j + 1))
             i = j + 1
             continue
-        if ord(c) > 127 or c in "\x1c\x1d\x1e\x1f":
-            raise RefAmbiguous(f"non-ASCII / separator control character {c!r} outside string/comment")
+        if c in "\x1c\x1d\x1e\x1f" or (ord(c) > 127 and (c.isspace() or c.isdigit() or c.isdecimal() or c.isnumeric())):
+            # Python's \\s and \\d are Unicode-aware; the documentation does not say whether that is meant
+            raise RefAmbiguous(f"Unicode whitespace / digit / separator control {c!r} outside string/comment")
+        if ord(c) > 127:
+            raise RefLexError(f"illegal character {c!r} at {i} (no documented token contains it)")
         for name, sym in _SYMS:
             if text.startswith(sym, i):
                 out.append((name, sym, i, i + len(sym)))
